@@ -316,4 +316,103 @@ theorem wrapGo_layout (lib : Lib) (rm : Bool) (cols rows : Int) (segs : List (Na
         · exact hr1 o h
         · have := hr.1 o h; omega
 
+/-! ### strict reading order of the word-wrapping layout -/
+
+/-- Pen `(c1,r1)` is at or before pen `(c2,r2)` in reading order. -/
+def penLe (c1 r1 c2 r2 : Int) : Prop := r1 < r2 ∨ (r1 = r2 ∧ c1 ≤ c2)
+
+theorem layout_pen_mono (cols : Int) (l : List Item) (col row : Int)
+    (hw : ∀ it ∈ l, it.brk = false → 0 < it.w) :
+    penLe col row (layout cols l col row).2.1 (layout cols l col row).2.2 := by
+  induction l generalizing col row with
+  | nil => exact Or.inr ⟨rfl, Int.le_refl _⟩
+  | cons it rest ih =>
+    have hw' : ∀ it' ∈ rest, it'.brk = false → 0 < it'.w := fun a h => hw a (List.mem_cons_of_mem _ h)
+    simp only [layout]
+    split
+    · have := ih 0 (row + 1) hw'
+      unfold penLe at this ⊢; omega
+    · rename_i hb
+      have hpos := hw it List.mem_cons_self (by simpa using hb)
+      simp only [advance]
+      by_cases hf : col + it.w ≥ cols
+      · simp only [hf, if_true]
+        have := ih 0 (row + 1) hw'
+        unfold penLe at this ⊢; omega
+      · simp only [hf, if_false]
+        have := ih (col + it.w) row hw'
+        unfold penLe at this ⊢; omega
+
+theorem layout_lt_end (cols : Int) (l : List Item) (col row : Int)
+    (hw : ∀ it ∈ l, it.brk = false → 0 < it.w) :
+    ∀ o ∈ (layout cols l col row).1,
+      o.row < (layout cols l col row).2.2 ∨
+      (o.row = (layout cols l col row).2.2 ∧ o.col < (layout cols l col row).2.1) := by
+  induction l generalizing col row with
+  | nil => intro o ho; cases ho
+  | cons it rest ih =>
+    have hw' : ∀ it' ∈ rest, it'.brk = false → 0 < it'.w := fun a h => hw a (List.mem_cons_of_mem _ h)
+    intro o ho
+    simp only [layout] at ho ⊢
+    split at ho
+    · rename_i hb
+      simp only [hb, if_true]
+      exact ih 0 (row + 1) hw' o ho
+    · rename_i hb
+      simp only [hb, Bool.false_eq_true, if_false]
+      have hpos := hw it List.mem_cons_self (by simpa using hb)
+      simp only [advance] at ho ⊢
+      by_cases hf : col + it.w ≥ cols
+      · simp only [hf, if_true] at ho ⊢
+        rcases List.mem_cons.1 ho with rfl | h
+        · have := layout_pen_mono cols rest 0 (row + 1) hw'
+          unfold penLe at this; simp only; omega
+        · exact ih 0 (row + 1) hw' o h
+      · simp only [hf, if_false] at ho ⊢
+        rcases List.mem_cons.1 ho with rfl | h
+        · have := layout_pen_mono cols rest (col + it.w) row hw'
+          unfold penLe at this; simp only; omega
+        · exact ih (col + it.w) row hw' o h
+
+theorem layoutWrap_ge_pen (cols : Int) (L : List (List Item)) (col row : Int)
+    (hw : ∀ seg ∈ L, ∀ it ∈ seg, it.brk = false → 0 < it.w) :
+    (∀ o ∈ (layoutWrap cols L col row).1, penLe col row o.col o.row) ∧
+    penLe col row (layoutWrap cols L col row).2.1 (layoutWrap cols L col row).2.2 := by
+  induction L generalizing col row with
+  | nil => exact ⟨(by intro o ho; cases ho), Or.inr ⟨rfl, Int.le_refl _⟩⟩
+  | cons seg rest ih =>
+    have hseg := hw seg List.mem_cons_self
+    have hrest : ∀ s ∈ rest, ∀ it ∈ s, it.brk = false → 0 < it.w := fun s h => hw s (List.mem_cons_of_mem _ h)
+    simp only [layoutWrap]
+    generalize hp : (if totalW seg ≤ cols ∧ totalW seg + col > cols then ((0 : Int), row + 1) else (col, row)) = p
+    have hp2 : penLe col row p.1 p.2 := by
+      rw [← hp]; unfold penLe; split <;> simp <;> omega
+    have h1 := layout_ge_pen cols seg p.1 p.2 hseg
+    have h2 := layout_pen_mono cols seg p.1 p.2 hseg
+    have h3 := ih (layout cols seg p.1 p.2).2.1 (layout cols seg p.1 p.2).2.2 hrest
+    unfold penLe at hp2 h2 h3 ⊢
+    refine ⟨?_, by omega⟩
+    intro o ho
+    rcases List.mem_append.1 ho with h | h
+    · have := h1 o h; omega
+    · have := h3.1 o h; omega
+
+theorem layoutWrap_pairwise (cols : Int) (L : List (List Item)) (col row : Int)
+    (hw : ∀ seg ∈ L, ∀ it ∈ seg, it.brk = false → 0 < it.w) :
+    List.Pairwise before (layoutWrap cols L col row).1 := by
+  induction L generalizing col row with
+  | nil => exact List.Pairwise.nil
+  | cons seg rest ih =>
+    have hseg := hw seg List.mem_cons_self
+    have hrest : ∀ s ∈ rest, ∀ it ∈ s, it.brk = false → 0 < it.w := fun s h => hw s (List.mem_cons_of_mem _ h)
+    simp only [layoutWrap]
+    generalize (if totalW seg ≤ cols ∧ totalW seg + col > cols then ((0 : Int), row + 1) else (col, row)) = p
+    rw [List.pairwise_append]
+    refine ⟨layout_pairwise cols seg p.1 p.2 hseg, ih _ _ hrest, ?_⟩
+    intro a ha b hb
+    have h1 := layout_lt_end cols seg p.1 p.2 hseg a ha
+    have h2 := (layoutWrap_ge_pen cols rest _ _ hrest).1 b hb
+    unfold penLe at h2
+    simp only [before]; omega
+
 end VaxisModel.Lemmas.WindowText
